@@ -51,6 +51,7 @@
 (*  C07.fifo       a waiting request reaches a connection while a request  *)
 (*                 that arrived earlier is still waiting.                  *)
 (*  C07.workConserving  quiescent, a healthy connection nobody holds       *)
+(*                 (and that has answered every request it was given)      *)
 (*                 exists and a request is waiting.                        *)
 (*  C07.noLeak     a request that timed out while waiting (or is otherwise *)
 (*                 no longer waiting) is handed a connection; traffic has  *)
@@ -75,6 +76,7 @@ AInit0(mn, mx, ql) ==
   [min |-> mn, max |-> mx, qlen |-> ql,
    conn |-> <<>>,      \* c -> "opening" | "open" | "dead" | "closed"
    hold |-> <<>>,      \* c -> request holding it, 0 = nobody
+   late |-> <<>>,      \* c -> requests that timed out while holding c and are still unanswered by c
    req |-> <<>>,       \* r -> [arr, own, st, nd]
    narr |-> 0,         \* arrivals so far (arrival order)
    fresh |-> 0,        \* the request whose Arrive was the previous event (Closed events aside), else 0
@@ -87,7 +89,9 @@ Reqs(a) == DOMAIN a.req
 Conns(a) == DOMAIN a.conn
 LiveWaiting(a) == {r \in Reqs(a) : a.req[r].st = "pend" /\ a.req[r].own = 0}
 LiveConns(a) == {c \in Conns(a) : a.conn[c] \in {"opening", "open"}}
-Free(a) == {c \in Conns(a) : a.conn[c] = "open" /\ a.hold[c] = 0}
+\* a connection nobody holds and that is not still working on a timed-out request (a pool
+\* may, but need not, reuse a connection before it has answered the request that timed out)
+Free(a) == {c \in Conns(a) : a.conn[c] = "open" /\ a.hold[c] = 0 /\ a.late[c] = {}}
 Holder(a, r) == {c \in Conns(a) : a.hold[c] = r}
 
 \* connection c is given back by its holder; if it is dead the pool must close
@@ -100,7 +104,7 @@ Rel(a, c) ==
 \* the request that is just arriving is not yet "waiting": it may still be started,
 \* get a connection created, or be rejected within its own arrival (dead cached
 \* connections may be closed first)
-Excl(a, e) == IF a.fresh # 0 /\ (e.e = "Closed" \/ (e.e \in {"Create", "Start", "Deliver"} /\ e.r = a.fresh))
+Excl(a, e) == IF a.fresh # 0 /\ (e.e = "Closed" \/ (e.e \in {"Create", "Start", "Deliver", "TimedOut"} /\ e.r = a.fresh))
               THEN {a.fresh} ELSE {}
 BoundOk(a, e) == a.pclosed \/ Cardinality(LiveWaiting(a) \ Excl(a, e)) <= a.qlen
 
@@ -175,7 +179,7 @@ Upd(a, e) ==
          [b EXCEPT !.req = @ @@ (e.r :> [arr |-> a.narr + 1, own |-> 0, st |-> "pend", nd |-> 0]),
                    !.narr = @ + 1]
     [] e.e = "Create" ->
-         [b EXCEPT !.conn = @ @@ (e.c :> "opening"), !.hold = @ @@ (e.c :> 0),
+         [b EXCEPT !.conn = @ @@ (e.c :> "opening"), !.hold = @ @@ (e.c :> 0), !.late = @ @@ (e.c :> {}),
                    !.req = IF e.r \in Reqs(a) /\ a.req[e.r].st = "pend" /\ a.req[e.r].own = 0
                            THEN [@ EXCEPT ![e.r].own = e.c] ELSE @]
     [] e.e = "Opened" ->
@@ -186,7 +190,7 @@ Upd(a, e) ==
     [] e.e = "Done" ->
          IF a.hold[e.c] = e.r
          THEN Rel([b EXCEPT !.req[e.r].st = IF @ = "zomb" THEN "done" ELSE IF @ = "run" THEN "resp" ELSE @], e.c)
-         ELSE b
+         ELSE [b EXCEPT !.late[e.c] = @ \ {e.r}]
     [] e.e = "TimedOut" ->
          LET q == a.req[e.r] IN
          IF q.st = "pend" /\ q.own = 0 THEN [b EXCEPT !.req[e.r].st = "tmoW", !.stale = @ + 1]
@@ -194,7 +198,9 @@ Upd(a, e) ==
          ELSE IF q.st = "run"
               THEN LET hs == Holder(a, e.r)
                        b1 == [b EXCEPT !.req[e.r].st = "tmoR"]
-                   IN IF hs = {} THEN b1 ELSE Rel(b1, CHOOSE c \in hs : TRUE)
+                   IN IF hs = {} THEN b1
+                      ELSE LET c == CHOOSE x \in hs : TRUE
+                           IN Rel([b1 EXCEPT !.late[c] = @ \cup {e.r}], c)
          ELSE b
     [] e.e = "Deliver" ->
          [b EXCEPT !.req[e.r].nd = @ + 1,
